@@ -677,30 +677,33 @@ theorem parseText_marshal (L : OttoVerif.C06.Lib) (gap : Str) (hgap : gap.all is
 /-! ### the reviver walk -/
 
 mutual
-theorem reviveM_eq (f : Reviver) : ∀ fuel name v, reviveM f fuel name v = Spec.revive f fuel name v
-  | 0, _, _ => by simp [reviveM, Spec.revive]
-  | fuel + 1, name, .arr l => by simp [reviveM, Spec.revive, reviveArrM_eq f fuel 0 l]
-  | fuel + 1, name, .obj m => by simp [reviveM, Spec.revive, reviveObjM_eq f fuel (RMs'.keys m) m]
-  | fuel + 1, name, .undef => by simp [reviveM, Spec.revive]
-  | fuel + 1, name, .null => by simp [reviveM, Spec.revive]
-  | fuel + 1, name, .bool _ => by simp [reviveM, Spec.revive]
-  | fuel + 1, name, .num _ => by simp [reviveM, Spec.revive]
-  | fuel + 1, name, .str _ => by simp [reviveM, Spec.revive]
-theorem reviveArrM_eq (f : Reviver) : ∀ fuel i l, reviveArrM f fuel i l = Spec.reviveArr f fuel i l
-  | 0, _, _ => by simp [reviveArrM, Spec.reviveArr]
-  | _ + 1, _, .nil => by simp [reviveArrM, Spec.reviveArr]
-  | fuel + 1, i, .cons v t => by
-    simp only [reviveArrM, Spec.reviveArr, reviveM_eq f fuel (decimalNat i) v, reviveArrM_eq f fuel (i + 1) t]
-    cases (Spec.revive f fuel (decimalNat i) v).fst.val <;> rfl
+theorem reviveM_eq (f : Reviver) : ∀ fuel hk name v, reviveM f fuel hk name v = Spec.revive f fuel hk name v
+  | 0, _, _, _ => by simp [reviveM, Spec.revive]
+  | fuel + 1, hk, name, .arr l => by simp [reviveM, Spec.revive, reviveArrM_eq f fuel 0 (RVs.len l) l]
+  | fuel + 1, hk, name, .obj m => by simp [reviveM, Spec.revive, reviveObjM_eq f fuel (RMs'.keys m) m]
+  | fuel + 1, hk, name, .undef => by simp [reviveM, Spec.revive]
+  | fuel + 1, hk, name, .null => by simp [reviveM, Spec.revive]
+  | fuel + 1, hk, name, .bool _ => by simp [reviveM, Spec.revive]
+  | fuel + 1, hk, name, .num _ => by simp [reviveM, Spec.revive]
+  | fuel + 1, hk, name, .str _ => by simp [reviveM, Spec.revive]
+theorem reviveArrM_eq (f : Reviver) : ∀ fuel i len cur, reviveArrM f fuel i len cur = Spec.reviveArr f fuel i len cur
+  | 0, _, _, _ => by simp [reviveArrM, Spec.reviveArr]
+  | fuel + 1, i, len, cur => by
+    simp only [reviveArrM, Spec.reviveArr]
+    by_cases h : i < len
+    · simp only [h, if_true, reviveM_eq f fuel 65 (decimalNat i) _]
+      cases (Spec.revive f fuel 65 (decimalNat i) (RVs.getI i cur)).fst.val <;>
+        simp only [reviveArrM_eq f fuel (i + 1) len _]
+    · simp [h]
 theorem reviveObjM_eq (f : Reviver) : ∀ fuel names cur, reviveObjM f fuel names cur = Spec.reviveObj f fuel names cur
   | 0, _, _ => by simp [reviveObjM, Spec.reviveObj]
   | _ + 1, [], _ => by simp [reviveObjM, Spec.reviveObj]
   | fuel + 1, name :: names, cur => by
     simp only [reviveObjM, Spec.reviveObj]
     cases hg : RMs'.get name cur <;>
-      simp only [reviveM_eq f fuel name _] <;>
-      cases (Spec.revive f fuel name _).fst.val <;>
-      simp only [reviveObjM_eq f fuel names _] <;> rfl
+      simp only [reviveM_eq f fuel 79 name _] <;>
+      cases (Spec.revive f fuel 79 name _).fst.val <;>
+      simp only [reviveObjM_eq f fuel names _]
 end
 
 /-! ### Quote -/
